@@ -35,6 +35,8 @@ RULE = ("(1) random valid explicit map requests: DAGs of 1..4 structural functio
         "producers and consumers with ':' axes), handed to Pipeline([...]) in a random order - the model constructs the "
         "pipeline itself and must report the same MapSpecs (structured and as strings) and results; 20% with a "
         "conflicting consumer (renamed axis / other rank); "
+        "in all streams about a third of the functions return PAIRS as element values (tuple / list / 1-d ndarray; "
+        "consumers log whether they were handed one pair or a k-d object array of pairs); "
         "(3) input variants: missing / surplus input, input for a bound parameter, 2-d input as nested lists "
         "(ValueError before anything runs), input supplied for a defaulted parameter (the input wins); "
         "non-trivial = some function with >=2 output axes or a ':' axis or an internal axis; distinct by "
@@ -53,8 +55,9 @@ TRUSTED = ["Model/MapRun.v mirrors pipefunc/map/_run.py (sequential path) by han
 def emit_case(c) -> str:
     if c.get("kind") == "auto":
         aslist = [k for k, v in c["inputs"] if isinstance(v, dict) and v.get("as") == "list"]
-        return "(CAuto %s %s %s)" % (mapgen.request_lit(c), clist([cnat(i) for i in c["order"]]),
-                                     clist([cstr(k) for k in aslist]))
+        wrapped = [f["name"] for f in c["funcs"] if f.get("wrap")]
+        return "(CAuto %s %s %s %s)" % (mapgen.request_lit(c), clist([cnat(i) for i in c["order"]]),
+                                        clist([cstr(k) for k in aslist]), clist([cstr(k) for k in wrapped]))
     return "(CReq %s)" % mapgen.request_lit(c)
 
 
@@ -163,18 +166,71 @@ def _inputs_variant(c, rng):
     return c
 
 
+def _est_strlen(c):
+    """Rough upper estimate of the longest string an observation of this request contains (an element value embeds
+    the rendering of every argument; whole-array arguments of whole-array arguments multiply).  Requests beyond a few
+    thousand characters are dropped: coqc overflows its stack on string literals of some 30 KB."""
+    def prod(l):
+        n = 1
+        for d in l:
+            n *= d
+        return n
+    shape, elen = {}, {}
+    for name, v in c["inputs"]:
+        if isinstance(v, dict):
+            shape[name], elen[name] = list(v["sh"]), max([len(x) for x in v["d"]] or [1])
+        else:
+            shape[name], elen[name] = [], len(v)
+    worst = 0
+    for f in c["funcs"]:
+        sp = f.get("spec")
+        ins = {n: ax for n, ax in sp["i"]} if sp else {}
+        a = len(f["name"]) + 2
+        for p in f["params"]:
+            if p not in elen:
+                a += len(p) + 16
+            elif p in ins and len(ins[p]) == len(shape[p]):
+                a += len(p) + 5 + (elen[p] + 3) * prod([d for d, ax in zip(shape[p], ins[p]) if ax is None])
+            else:
+                a += len(p) + 5 + (elen[p] + 3) * prod(shape[p])
+        ret = list(f.get("ret") or f.get("int") or [])
+        e = a + (8 + max(len(o) for o in f["outs"]) if len(f["outs"]) > 1 else 0) + (8 + 3 * len(ret) if ret else 0) + 3
+        if sp and sp["o"]:
+            dims, k = [], 0
+            for ax in sp["o"][0][1]:
+                d = next((shape[n][q] for n, axs in sp["i"] if n in shape and len(axs) == len(shape[n])
+                          for q, x in enumerate(axs) if x == ax), None)
+                if d is None:
+                    d = ret[k] if k < len(ret) else 1
+                    k += 1
+                dims.append(d)
+        else:
+            dims = ret
+        for o in f["outs"]:
+            shape[o], elen[o] = dims, e
+        worst = max(worst, e)
+    return worst
+
+
+def _small(c):
+    return mapgen.request_size(c) <= 40 and _est_strlen(c) <= 5000
+
+
 def generate(rng, tier, mult):
     n = (220 if tier == "quick" else 4000) * mult
     n_auto = (110 if tier == "quick" else 2000) * mult
     out = []
     while len(out) < n:
-        c = mapgen.gen_request(rng, allow_zero_ext=True)
-        if mapgen.request_size(c) <= 40:
+        c = mapgen.gen_request(rng, allow_zero_ext=True, allow_wrap=True)
+        if _small(c):
+            if any(f.get("wrap") for f in c["funcs"]):   # wrapped functions are modelled by the CAuto kind only
+                c["kind"] = "auto"
+                c["order"] = list(range(len(c["funcs"])))
             out.append(c)
     k = 0
     while k < n_auto:
-        c = mapgen.gen_request(rng, allow_zero_ext=True)
-        if mapgen.request_size(c) > 40:
+        c = mapgen.gen_request(rng, allow_zero_ext=True, allow_wrap=True)
+        if not _small(c):
             continue
         u = mapgen.to_user_level(c, rng)
         if u is None:
@@ -186,8 +242,8 @@ def generate(rng, tier, mult):
     n_var = (60 if tier == "quick" else 1200) * mult
     k = 0
     while k < n_var:
-        c = mapgen.gen_request(rng, allow_zero_ext=True)
-        if mapgen.request_size(c) > 40:
+        c = mapgen.gen_request(rng, allow_zero_ext=True, allow_wrap=True)
+        if not _small(c):
             continue
         if rng.random() < 0.3:
             c = mapgen.to_user_level(c, rng) or c
@@ -208,7 +264,7 @@ def nontrivial_key(c):
     if not _nontrivial(c):
         return None
     if c.get("kind") == "auto":
-        return ("auto", [mapsym.spec_str(f.get("spec")) for f in c["funcs"]], c["order"],
+        return ("auto", [mapsym.spec_str(f.get("spec")) for f in c["funcs"]], [f.get("wrap") for f in c["funcs"]], c["order"],
                 [v["sh"] if isinstance(v, dict) else 0 for _, v in c["inputs"]], c.get("storage"))
     return ([mapsym.spec_str(f.get("spec")) for f in c["funcs"]],
             [v["sh"] if isinstance(v, dict) else 0 for _, v in c["inputs"]], c.get("storage"))
@@ -228,6 +284,12 @@ def distribution(c):
                                                     and None in ax for n, ax in f["spec"]["i"]) for f in c["funcs"]),
             "permuted": c.get("order") is not None and c["order"] != sorted(c["order"]),
             "zero_ext": any(zero_ext(f) for f in c["funcs"]),
+            "wrapped": "+".join(sorted({f["wrap"] for f in c["funcs"] if f.get("wrap")})) or "-",
+            # a ':' axis on the output of a wrapped MAPPED function (storage slicing of sequence-valued elements)
+            "wrapped_partial_reduce": any(
+                g.get("spec") and any(None in ax and any(a is not None for a in ax) and n in {
+                    o for f in c["funcs"] if f.get("wrap") and f.get("spec") and f["spec"]["i"] for o in f["outs"]}
+                    for n, ax in g["spec"]["i"]) for g in c["funcs"]),
             "internal_first": any(f.get("ret") and f.get("spec") and f["spec"]["i"] and
                                   f["spec"]["o"][0][1][0] not in {a for _, ax in f["spec"]["i"] for a in ax}
                                   for f in c["funcs"])}
